@@ -1227,6 +1227,9 @@ def tags_c06(sc, obs):
                 yield "coll:spare-draws-left-alone"
         if res.startswith("err"):
             yield f"reject:{w[0]}:{res.split()[1]}"
+        if w[0] == "move" and w0[1] == "grid" and w0[2] == "hex":
+            diag = w[2].lower() not in ("n", "north", "up", "s", "south", "down", "e", "east", "right", "w", "west", "left", "back")
+            yield f"hex-move:{'diagonal' if diag else 'cardinal'}:{'1' if w[3] == '1' else 'k' if int(w[3]) > 1 else '0'}:{res.split()[0]}"
         if w[0] == "randempty" and res.startswith("ok"):
             yield "randempty:" + ("retry" if len(w) > 2 else "first-draw")
         if w[0] in PLACING and res == "ok" and prev is not None:
